@@ -284,4 +284,46 @@ func scenarioC16(c *Ctx) {
 		fh.Close()
 	}
 	c.Case("over-limit", true, fmt.Sprintf("board 3 1 1 %d 2 2 %d 3 3 %d | 0 0 0", lens[0], lens[1], lens[2]), "board offsets="+strings.Join(offsObs, ",")+" read="+obs)
+	c16SparseLines(c, fail)
+}
+
+// c16SparseLines: what an entry says must not depend on where the reader started. Anybody who can
+// write to the board file can append a line that lacks some keys; read together with the entry
+// before it and read on its own it must be the same (empty-fielded) entry.
+func c16SparseLines(c *Ctx, fail func(kind, what string, rep map[string]interface{})) {
+	dir := filepath.Join(c.OutDir, "board-sparse")
+	os.MkdirAll(dir, 0755)
+	file, lock := filepath.Join(dir, "board"), filepath.Join(dir, "lock")
+	st, err := file_storage.NewFileStorage(file, lock)
+	if err != nil {
+		panic(err)
+	}
+	st.Send(storage.Message{DkgRoundID: "round-a", Event: "event_full", Data: []byte("payload of the full entry"), Signature: []byte("sig"), SenderAddr: "alice", RecipientAddr: "bob"})
+	st.Close()
+	fh, _ := os.OpenFile(file, os.O_APPEND|os.O_WRONLY, 0644)
+	fmt.Fprintln(fh, `{"id":"sparse-1","dkg_round_id":"round-b","offset":1}`)
+	fmt.Fprintln(fh, `{"id":"sparse-2","offset":2,"event":"event_only"}`)
+	fh.Close()
+	proj := func(m storage.Message) string {
+		return fmt.Sprintf("id=%s round=%s event=%s data=%q sig=%q sender=%s recipient=%s", m.ID, m.DkgRoundID, m.Event, m.Data, m.Signature, m.SenderAddr, m.RecipientAddr)
+	}
+	read := func(k uint64) []storage.Message {
+		h, _ := file_storage.NewFileStorage(file, lock)
+		defer h.Close()
+		ms, _ := h.GetMessages(k)
+		return ms
+	}
+	all := read(0)
+	for k := 1; k < len(all); k++ {
+		alone := read(uint64(k))
+		if len(alone) == 0 || proj(alone[0]) != proj(all[k]) {
+			got := "nothing"
+			if len(alone) > 0 {
+				got = proj(alone[0])
+			}
+			fail("entry-depends-on-read-offset", fmt.Sprintf("the entry at position %d reads differently from offset 0 and from offset %d", k, k),
+				map[string]interface{}{"position": k, "read_from_0": proj(all[k]), "read_from_k": got})
+		}
+	}
+	c.Case("sparse-lines", true, "skip c16sparse", "skip c16sparse")
 }
